@@ -181,7 +181,7 @@ def gen_l2(ctx):
     mk('static', material='j2', mode='plane strain', order=1)
     mk('static', material='linear', mode='axisymmetric', order=1)
     mk('multiblock', material='neohookean', nblocks=3, Nx=3, Ny=3)
-    mk('multiblock', material='j2', nblocks=2, Nx=2, Ny=3)
+    mk('multiblock', material='j2', nblocks=2, Nx=2, Ny=3, dense=(ctx.tier != 'quick'))
     mk('newmark', material='neohookean', upred=False, Nx=3, Ny=3)
     mk('newmark', material='linear', upred=True, mode='axisymmetric')
     mk('newmark', material='neohookean', upred=True, Nx=3, Ny=3)            # F6 (fixed): must now agree
@@ -297,8 +297,8 @@ def run_l2(cfg):
             if fac == 'create_dynamics_functions':
                 fns = Mechanics.create_dynamics_functions(fs, 'plane strain', mat, Mechanics.NewmarkParameters(), pressureProjectionDegree=cfg['degree'])
                 q = fns.compute_initial_state()
-                K = asm(fns.compute_element_hessians(U, np.zeros_like(U), q, dt))
-                H = jax.hessian(lambda x: fns.compute_algorithmic_energy(dm.create_field(x, Ubc), np.zeros_like(U), q, dt))(Uu)
+                K = asm(fns.compute_element_hessians(U, UP, q, dt))
+                H = jax.hessian(lambda x: fns.compute_algorithmic_energy(dm.create_field(x, Ubc), UP, q, dt))(Uu)
             else:
                 if fac == 'create_multi_block_mechanics_functions':
                     fns = Mechanics.create_multi_block_mechanics_functions(fs, 'plane strain', {'block_0': mat}, pressureProjectionDegree=cfg['degree'])
@@ -341,8 +341,9 @@ def run_l2(cfg):
         info['max|K_single-K_multi|'] = d
         if d > 1e-11 * max(1.0, float(onp.abs(Ks).max())):
             bad.append('multi-block stiffness differs from the single-block stiffness by %.3g' % d)
-        H = jax.hessian(lambda x: multi.compute_strain_energy(dm.create_field(x, Ubc), qm, dt))(Uu)
-        _cmp('multi-block %s (%d blocks)' % (cfg['material'], cfg['nblocks']), Km, H, bad, info)
+        if cfg.get('dense', True):      # the dense Hessian of the J2 multi-block energy costs ~1 min of XLA compilation: thorough tier only
+            H = jax.hessian(lambda x: multi.compute_strain_energy(dm.create_field(x, Ubc), qm, dt))(Uu)
+            _cmp('multi-block %s (%d blocks)' % (cfg['material'], cfg['nblocks']), Km, H, bad, info)
     elif kind == 'newmark':
         fns = Mechanics.create_dynamics_functions(fs, cfg['mode'], mat, Mechanics.NewmarkParameters())
         q = fns.compute_initial_state()
